@@ -66,6 +66,9 @@ PageIn(os, p) ==
            skipall == p.cont /\ nostart /\ pp = <<>>              \* a page in the middle of a packet the stream never saw the beginning of: nothing is kept
            qq == IF p.cont /\ nostart /\ pp # <<>> THEN Tail(pp) ELSE pp
        IN [os EXCEPT !.q = @ \o (IF hole THEN << HoleMark >> ELSE <<>>) \o qq, !.pn = p.pn + 1, !.part = (~skipall /\ p.tail)]
+\* all packets of a page table: the bound of the loops that go packet by packet (a page of small packets holds dozens of them)
+RECURSIVE NPk(_, _)
+NPk(PG, i) == IF i = 0 THEN 0 ELSE NPk(PG, i - 1) + (IF PG[i].hp > 0 THEN PG[i].hp ELSE Len(PG[i].ws))
 OsPop(os) == IF os.q = <<>> THEN os ELSE [os EXCEPT !.q = Tail(@), !.pno = @ + 1]                         \* ogg_stream_packetout(os, NULL)
 
 (* ------------------------------ the reader ------------------------------ *)
@@ -279,8 +282,8 @@ PcmSeek(PG, LT, BL, vf, target, K) ==
   LET s == PcmSeekPage(PG, LT, BL, vf, target, K) IN
   IF s.ret # 0 THEN s
   ELSE LET v1 == MakeReady(BL, s.vf)
-           a == Discard(PG, LT, BL, v1, 0, target, K, 4 * Len(PG) + 8) IN
-       IF a.ret # 0 THEN a ELSE Drop(PG, LT, BL, a.vf, target, 8 * Len(PG) + 16)
+           a == Discard(PG, LT, BL, v1, 0, target, K, 4 * Len(PG) + 8 + NPk(PG, Len(PG))) IN
+       IF a.ret # 0 THEN a ELSE Drop(PG, LT, BL, a.vf, target, 8 * Len(PG) + 16 + NPk(PG, Len(PG)))
 
 (* the lapped seeks: _ov_64_seek_lap / _ov_d_seek_lap around one of the plain seeks: [ret, vf].  The blend itself is float arithmetic and not here;
    what is here is what the call does to the handle: samples taken for the lap before the seek, the buffer primed and consolidated after it *)
